@@ -91,6 +91,9 @@ type Machine struct {
 	skipInit  func(fn *ssa.Function) bool
 	AltFilter func(st *State, v Val) Val // applied to the alternative a fork takes
 	ExtGlobals map[string]Val           // values of package-level variables outside the repository (io.EOF, ...)
+	NoExactConcat bool                  // tape mode: string concatenation keeps only emptiness
+	ReadFields map[*types.Struct]map[int]bool // when set: struct fields never read by the interpreted code are ignored in state keys
+	OnConcat  func(st *State, site *ssa.BinOp, a, b Val)
 	Stuck     map[string]int
 }
 
@@ -605,6 +608,9 @@ func (m *Machine) step(st *State) (forks []*State) {
 		b := m.get(st, fr, x.Y)
 		if st.Status != stRun {
 			return nil
+		}
+		if m.OnConcat != nil && x.Op == token.ADD && isStringT(x.Type()) {
+			m.OnConcat(st, x, a, b)
 		}
 		r, ok := m.binop(st, x.Op, a, b, x.X.Type())
 		if !ok {
@@ -1491,7 +1497,7 @@ func (m *Machine) concat(a, b Val) (Val, bool) {
 		}
 		return nil, false
 	}
-	if x.Exact && y.Exact && len(x.Syms)+len(y.Syms) <= m.MaxExact {
+	if x.Exact && y.Exact && len(x.Syms)+len(y.Syms) <= m.MaxExact && (!m.NoExactConcat || len(x.Syms)+len(y.Syms) == 0) {
 		return AbsStr{Exact: true, Syms: append(append([]int(nil), x.Syms...), y.Syms...)}, true
 	}
 	nonE := (x.Exact && len(x.Syms) > 0) || (!x.Exact && x.NonE) || (y.Exact && len(y.Syms) > 0) || (!y.Exact && y.NonE)
@@ -1860,7 +1866,10 @@ func (m *Machine) Key(st *State) string {
 				_ = n
 				ts, ok := fr.Regs[root].(TapeStr)
 				if !ok {
-					continue
+					if len(st.Tapes) != 1 {
+						continue
+					}
+					ts = TapeStr{0} // a single input string: every cursor is a position in it
 				}
 				fr, v := fr, re.v
 				curs[ts.T] = append(curs[ts.T], curRef{func() int64 { return fr.Regs[v].(int64) }, func(x int64) { fr.Regs[v] = x }})
@@ -2003,7 +2012,28 @@ func (m *Machine) Key(st *State) string {
 		}
 	}
 	for _, id := range order {
-		fmt.Fprintf(&b, "|o%d=%s", name[id], fmtVal(st.Heap[id].V, pn))
+		o := st.Heap[id]
+		if m.ReadFields != nil {
+			if s, ok := o.T.Underlying().(*types.Struct); ok {
+				if sv, ok := o.V.(*StructV); ok {
+					rf := m.ReadFields[s]
+					fmt.Fprintf(&b, "|o%d={", name[id])
+					for i, f := range sv.F {
+						if rf[i] {
+							b.WriteString(fmtVal(f, pn))
+						} else if _, isPtr := f.(Ptr); isPtr {
+							b.WriteString(fmtVal(f, pn)) // keep the heap shape
+						} else {
+							b.WriteString("_")
+						}
+						b.WriteByte(',')
+					}
+					b.WriteString("}")
+					continue
+				}
+			}
+		}
+		fmt.Fprintf(&b, "|o%d=%s", name[id], fmtVal(o.V, pn))
 	}
 	fmt.Fprintf(&b, "|need%d", st.NeedT)
 	for _, undo := range shifted {
